@@ -138,6 +138,11 @@ func checkCmd(argv []string) int {
 	for _, k := range keys {
 		ct := P.contracts[k]
 		aimHere := ct.AimCheck != nil && hasTag(ct.AimCheck.Tag)
+		for _, mc := range ct.MustCall {
+			if ct.AimCheck != nil && hasTag(mc.Tag) {
+				aimHere = true
+			}
+		}
 		if (ct.Trusted && !aimHere) || !inScope(ct.Pkg) {
 			continue
 		}
@@ -519,6 +524,11 @@ func contractMentions(P *Program, ct *Contract, hasTag func(string) bool) bool {
 	}
 	if ct.AimCheck != nil && hasTag(ct.AimCheck.Tag) {
 		return true
+	}
+	for _, mc := range ct.MustCall {
+		if ct.AimCheck != nil && hasTag(mc.Tag) {
+			return true
+		}
 	}
 
 	cl := func(cs []Clause) bool {
